@@ -37,6 +37,14 @@ theorem shape_agrees :
     recvRemovesByMID = true ∧ storesClone = true ∧ deferredRemovalByMID = true ∧ responseWakesWriter = true ∧
     dropsInPassOfLastCopy = false := by decide
 
+/-- The parameters `P` of the theorems are the parameters the user configured: `options.WithTransmission` writes
+    NSTART, ACK_TIMEOUT and MAX_RETRANSMIT verbatim (also the value 0) into the client / server configuration, and
+    `dtls/server.createConn` / `udp/server.getOrCreateConn` copy all three into the configuration of the connections
+    they create.  (The behaviour itself is checked by the harness levels `opt` and `dtlssrv`.) -/
+theorem configured_parameters_reach_the_connection :
+    transmissionOptCopiesVerbatim = true ∧ dtlsServerConnTakesTransmission = true ∧
+    udpServerConnTakesTransmission = true := by decide
+
 /-! ## bounded, spaced, identical copies -/
 
 /-- At most `1 + MAX_RETRANSMIT` transmissions of any request, whatever happens. -/
@@ -360,6 +368,7 @@ end CoapVerif.Props.C06
 section Audit
 open CoapVerif.Props.C06
 #print axioms shape_agrees
+#print axioms configured_parameters_reach_the_connection
 #print axioms copies_bounded
 #print axioms copy_is_kth
 #print axioms copy_spacing
